@@ -338,9 +338,8 @@ func runR15_3(c *Ctx, r *R) {
 			}
 			n++
 			key := fmt.Sprintf("%s/return#%d", fnKey(f), n)
-			v := ret.Results[0]
-			okv, why := false, ""
-			privateBad := false
+			var judge func(fn *ssa.Function, v ssa.Value, depth int) (okv bool, why string, privateBad bool)
+			judge = func(fn *ssa.Function, v ssa.Value, depth int) (okv bool, why string, privateBad bool) {
 			switch x := v.(type) {
 			case *ssa.Const:
 				if k, ok := constInt(x); ok && k >= 0 {
@@ -349,6 +348,32 @@ func runR15_3(c *Ctx, r *R) {
 			case *ssa.Call:
 				if o := calleeObj(x); o != nil && strings.HasPrefix(o.Name(), "yyLexError") {
 					okv, why = true, "error recorded"
+				} else if h := x.Call.StaticCallee(); h != nil && h.Blocks != nil && h.Pkg == fn.Pkg && depth < 2 {
+					// a helper of the lexer (lexIdent): every value it returns is judged the same way
+					okv, why = true, "token computed by "+h.Name()
+					any := false
+					for _, hr := range returnsOf(h) {
+						if len(hr.Results) != 1 {
+							okv = false
+							continue
+						}
+						any = true
+						o2, _, p2 := judge(h, hr.Results[0], depth+1)
+						if !o2 {
+							okv = false
+						}
+						if p2 {
+							privateBad = true
+						}
+					}
+					if !any {
+						okv = false
+					}
+				}
+			case *ssa.Extract, *ssa.Lookup:
+				// keyword token from the keyword map (values checked by R15.4)
+				if isIntegerType(x.Type()) {
+					okv, why = true, "keyword token"
 				}
 			case *ssa.UnOp:
 				// lval.yys: last store in the block
@@ -406,7 +431,7 @@ func runR15_3(c *Ctx, r *R) {
 							// ... and below the range goyacc numbers the grammar's named tokens from (yyPrivate,
 							// U+E000): a private-use rune in the source would otherwise be taken for IDENT, INTEGER,
 							// STRING or a keyword, carrying the previous token's value (D19)
-							if !runeBelowPrivate(c, f, lv) {
+							if !runeBelowPrivate(c, fn, lv) {
 								good = false
 								privateBad = true
 							}
@@ -417,6 +442,9 @@ func runR15_3(c *Ctx, r *R) {
 					}
 				}
 			}
+			return
+			}
+			okv, why, privateBad := judge(f, ret.Results[0], 0)
 			switch {
 			case okv:
 				r.OK(key, ret.Pos(), "%s", why)
